@@ -231,6 +231,13 @@ def run_history(case, d, want_regen=True):
                 res = ['exc', type(e).__name__]
         elif k == 'metaset':
             res = call(lambda: ra.metadata.update(op['value']))
+        elif k == 'metaop':
+            md = ra.metadata
+            m, key, val = op['method'], op.get('key', 'a'), op.get('value', 1)
+            f = {'update': lambda: md.update({key: val}), 'setitem': lambda: md.__setitem__(key, val),
+                 'pop': lambda: md.pop(key), 'popitem': lambda: md.popitem(),
+                 'del': lambda: md.__delitem__(key)}[m]
+            res = call(f)
         elif k == 'metaclear':
             def clear():
                 for key in list(ra.metadata.keys()):
